@@ -3,6 +3,7 @@ package main
 import (
 	"fmt"
 
+	z80 "github.com/koron-go/z80"
 	"github.com/koron-go/z80/internal/verif/refz80"
 )
 
@@ -17,7 +18,7 @@ func init() {
 }
 
 func checkC14(c *Ctx) {
-	c.Rule = "every implemented encoding x (lattice incl. R in {00,7E,7F,80,FE,FF}, I in {00,3F,80,FF}; all 256 R values at each of the 4 base vectors) x 256 F: R' = (R&0x80)|((R+m)&0x7F) with m = opcode fetches per refz80 (1; 2 for CB/ED/DD/FD; 2 or 3 for DDCB/FDCB), I' = I, except LD R,A / LD I,A; LD A,R / LD A,I value and flags; plus Step sequences: block instructions with 3 repetitions and HALT stepped 300 times across the 0x7F->0x00 wrap for all 256 starting R. Non-trivial: every case advances R (counted as cases whose R changed)."
+	c.Rule = "every implemented encoding x (lattice incl. R in {00,7E,7F,80,FE,FF}, I in {00,3F,80,FF}; all 256 R values at each of the 4 base vectors) x 256 F: R' = (R&0x80)|((R+m)&0x7F) with m = opcode fetches per refz80 (1; 2 for CB/ED/DD/FD; 2 or 3 for DDCB/FDCB), I' = I, except LD R,A / LD I,A; LD A,R / LD A,I value and flags; plus Step sequences: block instructions with 3 repetitions and HALT stepped 300 times across the 0x7F->0x00 wrap for all 256 starting R; LD A,I / LD A,R with a refused maskable request pending x IM x IFF2 x all 256 I/R values. Non-trivial: every case advances R (counted as cases whose R changed)."
 	c.Bound = "lattice v1 " + c.Tier + " + all 256 R"
 	runStepConformance(c, stepConfOpts{name: "c14/refresh", aspects: AspR | AspI, allR: true,
 		extra: func(w *Worker, e *Enc, cs *Case, res *StepResult) []string {
@@ -30,6 +31,7 @@ func checkC14(c *Ctx) {
 			return nil
 		}})
 	c14Sequences(c)
+	c14Pending(c)
 	c.Assume("DDCB/FDCB: 2 or 3 opcode fetches accepted (statement)")
 	c.Assume("R across an accepted interrupt is not part of this property")
 }
@@ -103,4 +105,56 @@ func c14Sequences(c *Ctx) {
 	c.Nontrivial += n
 	c.States += int64(len(progs)) * 256
 	c.Sample(c14Seq{"HALT x300", 0x7E, 300})
+}
+
+// c14Pending: LD A,I / LD A,R with a *refused* maskable request pending (IFF1 clear), IFF2 both ways,
+// all 256 values of I and R, the three modes: the value, S, Z, H, N, C and P/V = IFF2 must be as without
+// a request, and the request must still be pending.
+func c14Pending(c *Ctx) {
+	w := newWorker(obsBackground(c))
+	var n int64
+	for _, code := range [][]uint8{{0xED, 0x57}, {0xED, 0x5F}} {
+		e := buildEnc(code)
+		for im := 0; im < 3; im++ {
+			for _, iff2 := range []bool{false, true} {
+				for v := 0; v < 256; v++ {
+					for _, f := range []uint8{0x00, 0xFF, 0x01, 0xD6} {
+						p := baseVector(v % 4)
+						p.S.IFF1, p.S.IFF2, p.S.IM = false, iff2, im
+						p.S.I, p.S.R, p.S.F = uint8(v), uint8(v*7+3), f
+						var cs Case
+						materialise(&p, &e, &cs)
+						w.setup(&cs)
+						var req *z80.Interrupt
+						switch im {
+						case 0:
+							req = z80.IM0Interrupt(0xFF)
+						case 1:
+							req = z80.IM1Interrupt()
+						default:
+							req = z80.IM2Interrupt(0x40)
+						}
+						w.cpu.Interrupt = req
+						res := w.stepBothNoSetup(&cs)
+						n++
+						var d []string
+						if w.cpu.Interrupt != req {
+							d = append(d, "the refused request did not stay pending")
+						}
+						w.cpu.Interrupt = nil
+						d = append(d, w.compare(&cs, res, AspState|AspR|AspI)...)
+						if len(d) > 0 {
+							c.Report("c14/pending:"+e.Name, n, "", cs.toJSON(c.Salt), cloneStrings(append([]string{fmt.Sprintf("%s with a refused maskable request pending (IM %d, IFF1=0, IFF2=%v, I=%02X R=%02X)", e.Name, im, iff2, p.S.I, p.S.R)}, d...)))
+							return
+						}
+					}
+				}
+			}
+		}
+	}
+	c.Evaluations += n
+	c.Transitions += n
+	c.Traces += n
+	c.Nontrivial += n
+	c.States += n
 }
